@@ -1031,12 +1031,16 @@ func (e *Exec) typeAssert(st *State, x *ssa.TypeAssert) {
 			okTerm = fmt.Sprintf("(not (= (i-tag %s) 0))", v.S)
 		} else {
 			p := e.implPred(at)
-			// axioms for the concrete types seen so far
-			for _, k := range e.sc.tagList {
-				_ = k
-			}
 			okTerm = fmt.Sprintf("(%s (i-tag %s))", p, v.S)
 			e.implAxioms(at, it, p)
+			// ordinary error values (fmt.Errorf, errors.New, the framer's panics) implement
+			// error and are not runtime.Error (ground instance for this operand)
+			switch types.TypeString(at, nil) {
+			case "runtime.Error":
+				e.sc.assert(fmt.Sprintf("(=> (%s (i-tag %s)) (not %s))", e.softTagPred(), v.S, okTerm))
+			case "error":
+				e.sc.assert(fmt.Sprintf("(=> (%s (i-tag %s)) %s)", e.softTagPred(), v.S, okTerm))
+			}
 		}
 		res = v.S
 	} else {
@@ -1100,6 +1104,8 @@ func (e *Exec) panicInstr(st *State, x *ssa.Panic) []Exit {
 	}
 	if soft {
 		pv := e.val(st, x.X)
+		// an explicit panic(err) with an error built by the driver: not a runtime.Error
+		e.assume(st, fmt.Sprintf("(%s (i-tag %s))", e.softTagPred(), pv.S))
 		return e.softExit(st, pv.S)
 	}
 	if e.recvDepth > 0 {
